@@ -138,12 +138,29 @@ theorem C01_kept_parent_active (env : Env σ) (d : Doc) (hc : conformantB d = tr
   exact (he.1 _).2 ⟨hp, kept_parent_kept (conformant_treeLike hc) s.hv s.cfg ts hx'.1 hx0 hx'.2 hpar⟩
 #assert_axioms C01_kept_parent_active
 
+/-- **no state is exited while a state below it is still active**: in the order in which
+    `exitStates` processes the exit set (reverse document order, `C02_exit_order`), every exited
+    descendant of a state stands before that state — together with `C01_exit_descendant_closed`:
+    when a state's onexit handlers run, nothing below it is active any more -/
+theorem C01_exit_descendants_first (d : Doc) (hc : conformantB d = true) (hv : Table) (cfg ts : List Nat)
+    (l1 l2 : List Nat) (p x : Nat)
+    (hsplit : sortByDesc (docIdOf d) (computeExitSet d hv cfg ts) = l1 ++ p :: l2)
+    (hx : x ∈ cfg) (hd : isDescendant d x p = true) : x ∈ l1 := by
+  have ht := conformant_treeLike hc
+  have hp : p ∈ computeExitSet d hv cfg ts := by
+    apply mem_sortByDesc.1
+    rw [hsplit]; simp
+  have hxe := computeExitSet_descendant_closed ht hv cfg ts hp hx hd
+  exact descendant_before_ancestor ht (sortByDesc_sorted _ _) hsplit (mem_sortByDesc.2 hxe) hd
+#assert_axioms C01_exit_descendants_first
+
 /-- What is proved of `C01_full` (all conformant documents, all reachable sessions, all data
     models): no state is exited while inactive; the root is never exited; the configuration after a
     microstep is exactly (old ∖ exit set) ∪ entry set; a configuration never lists a state twice and
     never contains a history pseudo-state; the exit set is closed under active descendants, so the
     states that stay active keep an active parent (`C01_exit_descendant_closed`,
-    `C01_kept_parent_active`).
+    `C01_kept_parent_active`), and descendants are exited before their ancestors
+    (`C01_exit_descendants_first`).
     **Missing** for `C01_full`: (i) for the *entered* states the clause "every active state's parent
     is active", and the clauses "exactly one active child of a compound state / of the root", "all
     children of an active parallel state are active" of `legalB`, and (ii) "no state is entered
@@ -191,6 +208,8 @@ example : (computeEntrySet exDoc1 [] [20]).toEnter = [2, 3, 4, 5, 6, 1] := by de
 -- hypotheses of C01_exit_descendant_closed: transition 10 (4 → 7) exits the parallel 2 and, with it, 6 below it
 example : 2 ∈ computeExitSet exDoc1 [] [1, 2, 3, 4, 5, 6] [10] ∧ isDescendant exDoc1 6 2 = true ∧
     6 ∈ computeExitSet exDoc1 [] [1, 2, 3, 4, 5, 6] [10] := by decide
+-- … and C01_exit_descendants_first: 6 stands before 2 in the exit order
+example : sortByDesc (docIdOf exDoc1) (computeExitSet exDoc1 [] [1, 2, 3, 4, 5, 6] [10]) = [6, 5, 4, 3] ++ 2 :: [] := by decide
 
 end Rfsm.Interp
 
